@@ -42,38 +42,29 @@ let parse_op (op : string) : op =
   | "mwrite" -> OMWrite (pp 1, nn 2, nn 3) | "munsplit" -> OMUnsplit (pp 1, pp 2) | "mfreeze" -> OMFreeze (pp 1) | "mvec" -> OMIntoVec (pp 1) | "madv" -> OMAdvance (pp 1, nn 2)
   | "mclone" -> OMClone (pp 1) | "mdrop" -> OMDrop (pp 1) | "vbytes" -> OVIntoBytes (pp 1) | "vdrop" -> OVDrop (pp 1)
   | _ -> failwith ("op " ^ op)
-(* public entry points that the source defines through other entry points: the sequence of model operations each one stands for
-   (bytes_mut.rs: `Extend<Bytes>` = extend_from_slice per item; `Extend<&u8>` = Extend<u8> of the copied iterator; `put_slice`, `write_str` =
-   extend_from_slice; `put_bytes` = reserve + fill = resize to len + cnt; `set_len` below len = truncate; writing k <= spare bytes into
-   spare_capacity_mut and set_len(len + k) = extend_from_slice that fits; `Buf::copy_to_bytes` = split_to + freeze; `put(Bytes)` = extend_from_slice
-   of its contents, then the source is dropped.  bytes.rs: `copy_from_slice`, `From<Box<[u8]>>` = From<Vec> of a full vector; `From<String>` = From<Vec>;
-   `FromIterator<u8>` = From<Vec> of the collected vector (an exact-size iterator: capacity = length); BytesMut `FromIterator`, `From<&str>` = From<&[u8]>).
-   That a sequence of model steps refines the same sequence of value-model steps is `history_refinement` (RefineCor.v) *)
-type xop = O of op | FreezeRet      (* FreezeRet: freeze the handle the previous step of the sequence returned *)
-let expand (op : string) (prev_len : int -> int) (contents : int -> Model.n list) : xop list =
+(* public entry points that the source defines through other entry points (EntryDef.v: xop, expand; Entry.v: the two models compute the same
+   expansion on related states and the refinement of histories carries over).  The runner only parses the harness token into an `xop`;
+   each model expands it on ITS OWN state (view2 of the heap model, view1 of the value model). *)
+type xo = Base of op | X of xop
+let parse_xop (op : string) : xo =
   let f = String.split_on_char ':' op in
   let a k = List.nth f k in
   let nn k = n_of_string (a k) and pp k = pos_of_string (a k) and bb k = ns_of_hex (a k) in
-  let lenb k = n_of_int (List.length (bb k)) in
   match List.hd f with
-  | "bcopy" | "bfbox" | "bfiter" -> [O (OBFromVec (bb 1, lenb 1))]
-  | "bfstr" -> [O (OBFromVec (bb 1, nn 2))]
-  | "mfiter" | "mfstr" -> [O (OMFromSlice (bb 1))]
-  | "mextb" -> if a 2 = "~" then [] else List.map (fun c -> O (OMExtend (pp 1, ns_of_hex c))) (String.split_on_char ',' (a 2))
-  | "mextr" -> [O (OMExtendIter (pp 1, bb 2, lenb 2))]
-  | "mput" | "mfmt" | "mspare" -> [O (OMExtend (pp 1, bb 2))]
-  | "mputb" -> [O (OMResize (pp 1, n_of_int (prev_len (int_of_string (a 1)) + int_of_string (a 3)), nn 2))]
-  | "msetlen" -> [O (OMTruncate (pp 1, nn 2))]
-  | "mctb" -> [O (OMSplitTo (pp 1, nn 2)); FreezeRet]
-  | "mputbuf" -> [O (OMExtend (pp 1, contents (int_of_string (a 2)))); O (OBDrop (pp 2))]
-  | _ -> [O (parse_op op)]
-let inst (x : xop) (last : retv) : op option = match x, last with O o, _ -> Some o | FreezeRet, RH h -> Some (OMFreeze h) | FreezeRet, _ -> None
-let rec sstep_seq cap ubit (ops : xop list) (s : sst) (last : retv) : sout = match ops with
+  | "bcopy" -> X (XBCopyFromSlice (bb 1)) | "bfbox" -> X (XBFromBox (bb 1)) | "bfiter" -> X (XBFromIter (bb 1)) | "bfstr" -> X (XBFromString (bb 1, nn 2))
+  | "mfiter" -> X (XMFromIter (bb 1)) | "mfstr" -> X (XMFromStr (bb 1))
+  | "mextb" -> X (XMExtendBytes (pp 1, if a 2 = "~" then [] else List.map ns_of_hex (String.split_on_char ',' (a 2))))
+  | "mextr" -> X (XMExtendRef (pp 1, bb 2)) | "mput" -> X (XMPutSlice (pp 1, bb 2)) | "mfmt" -> X (XMWriteStr (pp 1, bb 2)) | "mspare" -> X (XMSpare (pp 1, bb 2))
+  | "mputb" -> X (XMPutBytes (pp 1, nn 2, nn 3)) | "msetlen" -> X (XMSetLen (pp 1, nn 2)) | "mctb" -> X (XMCopyToBytes (pp 1, nn 2)) | "mputbuf" -> X (XMPutBuf (pp 1, pp 2))
+  | _ -> Base (parse_op op)
+let ops1 (x : xo) (t : sst) : op list = match x with Base o -> [o] | X x -> expand (view1 t) x
+let ops2 (x : xo) (s : hst) : op list = match x with Base o -> [o] | X x -> expand (view2 s) x
+let rec sstep_seq cap ubit (ops : op list) (s : sst) (last : retv) : sout = match ops with
   | [] -> SOk (s, last)
-  | x :: r -> (match inst x last with None -> SStuck | Some o -> (match sstep cap ubit o s with SOk (s', rv) -> sstep_seq cap ubit r s' rv | other -> other))
-let rec run_seq orc (ops : xop list) (s : hst) (last : retv) (acc : ev list) = match ops with
+  | o :: r -> (match sstep cap ubit o s with SOk (s', rv) -> sstep_seq cap ubit r s' rv | other -> other)
+let rec run_seq orc (ops : op list) (s : hst) (last : retv) (acc : ev list) = match ops with
   | [] -> OK (last, s, acc)
-  | x :: r -> (match inst x last with None -> UB (EmptyString) | Some o -> (match run_op orc o s with OK (rv, s', e) -> run_seq orc r s' rv (acc @ e) | PANIC (s', e) -> PANIC (s', acc @ e) | UB w -> UB w))
+  | o :: r -> (match run_op orc o s with OK (rv, s', e) -> run_seq orc r s' rv (acc @ e) | PANIC (s', e) -> PANIC (s', acc @ e) | UB w -> UB w)
 let show_ev = function
   | EAlloc (XO p, sz) -> Printf.sprintf "a%s:%s" (string_of_pos p) (string_of_n sz) | EAlloc (_, sz) -> "a?:" ^ string_of_n sz
   | EFree (XO p, sz) -> Printf.sprintf "f%s:%s" (string_of_pos p) (string_of_n sz) | EFree (_, sz) -> "f?:" ^ string_of_n sz
@@ -286,14 +277,13 @@ let run () =
             if opname = "buniq" && not ipanic then (match find_prev (argi 1) with Some p -> if ret <> "b" ^ p.uniq then report "c08-is-unique" "is_unique() differs between two consecutive calls" | None -> ());
             (* ---- models ---- *)
             if !model_ok then begin
-              let mops = expand op (fun id -> match find_prev id with Some p -> p.len | None -> 0)
-                                   (fun id -> match List.assoc_opt (pos_of_string (string_of_int id)) (svals_of !sst) with Some v -> v.sv_bytes | None -> []) in
+              let xo = parse_xop op in
               let orc = List.filter_map (fun e -> if e.[0] = 'r' then (match String.split_on_char ':' e with [_; _; s] -> Some (n_of_string (fst (split_on_first '!' s))) | _ -> None)
                                                   else if e.[0] = 'a' && e <> "ac" then Some (n_of_string (snd (split_on_first ':' e))) else None) ievs in
               (* M1 first: the value model with the concrete side's capacity / uniqueness bit *)
               let pcap = (match find_prev (argi 1) with Some p when p.kind = 'M' -> n_of_string p.cap | _ -> N0) in
               let ubit = (match opname with "buniq" -> ret = "b1" | "btryinto" -> ret <> "err" | "mreclaim" -> ret = "b1" | _ -> false) in
-              (match sstep_seq pcap ubit mops !sst RUnit with
+              (match sstep_seq pcap ubit (ops1 xo !sst) !sst RUnit with
                | SOk (s', r) ->
                  if ipanic then report "c13-unexpected-panic" (Printf.sprintf "op=%s panicked; the value model gives a result (in-contract call)" op)
                  else begin
@@ -309,7 +299,7 @@ let run () =
                | SPanic -> if not ipanic then report "c13-missing-panic" (Printf.sprintf "op=%s is out of contract (the value model panics) but the call returned %s" op ret)
                | SStuck -> report "model-obs" ("value model stuck on " ^ op));
               (* M2 *)
-              (match run_seq orc mops !mst RUnit [] with
+              (match run_seq orc (ops2 xo !mst) !mst RUnit [] with
                | UB w -> model_ok := false; report "model-ub" (Printf.sprintf "op=%s: the heap model reaches undefined behaviour: %s" op (string_of_cstring w))
                | (OK (_, s', e) | PANIC (s', e)) as res ->
                  let mpanic = (match res with PANIC _ -> true | _ -> false) in
